@@ -3,6 +3,7 @@
 From Coq Require Import ZArith List.
 From Strand Require Import Base.ZUtil Model.Outcome Model.Codec Model.Backend Model.ZBackend Model.Zkp Model.Wire
   Model.Shuffler Model.Exec Proofs.Laws Proofs.ZLaws Proofs.CodecP Proofs.WireP Proofs.ShuffleSpec Proofs.Untrusted.
+From Strand Require Import Model.Ristretto Model.RistrettoFast Model.RBackend Proofs.RistrettoWireP.
 Import ListNotations.
 Open Scope Z_scope.
 
@@ -40,3 +41,13 @@ Theorem C13_wrong_counts_no_panic : forall (B : Backend) pk gens pf es e_primes 
   gens <> [] -> ~ lengths_ok B pf es e_primes -> check_proof B pk gens pf es e_primes label = Ok false.
 Proof. exact check_proof_wrong_counts. Qed.
 Print Assumptions C13_wrong_counts_no_panic.
+
+(* the third backend: every ristretto wire reader (32-byte points and scalars, 30-byte plaintexts, ciphertexts, keys,
+   Schnorr / Chaum-Pedersen proofs, the vector wrappers and the shuffle proof) is total on EVERY byte string *)
+Theorem C13_ristretto_decoders_never_panic : forall K PM,
+  np_reader (rd_RE K) /\ np_reader rd_RX /\ np_reader rd_RP /\ np_reader (rd_Rct K PM) /\ np_reader (rd_Rsk K) /\
+  np_reader (rd_Rschnorr K PM) /\ np_reader (rd_Rcp K PM) /\
+  np_reader (rd_Rsvec (rd_RE K)) /\ np_reader (rd_Rsvec rd_RX) /\ np_reader (rd_Rsvec (rd_Rct K PM)) /\
+  np_reader (rd_Rproof K PM).
+Proof. exact ristretto_readers_never_panic. Qed.
+Print Assumptions C13_ristretto_decoders_never_panic.
